@@ -84,6 +84,7 @@ theorem C15_entry_build (e : Env) (a : BuildArgs) (u : Url) :
   obtain ⟨qs, _, h⟩ := bind_ok h
   rw [henc] at h
   rw [if_neg (by decide)] at h
+  obtain ⟨sc, _, h⟩ := bind_ok h   -- the lowered scheme (fix e21485a)
   obtain ⟨netloc, _, h⟩ := bind_ok h
   obtain ⟨path, hpath, h⟩ := bind_ok h
   cases h
@@ -108,8 +109,8 @@ theorem C15_entry_build (e : Env) (a : BuildArgs) (u : Url) :
     rw [this]
     exact noDotSegments_nil
 
-/-- `with_path(path)`: the argument is normalised BEFORE the leading '/' is supplied, so a
-    rootless "../a" is normalised as a relative path ("a") and then rooted — still no dot segment -/
+/-- `with_path(path)`: since fix 7cae68c the argument is rooted first (`"/" + path` for a rootless one) and
+    `normalize_path` then runs on the rooted path, so the stored path has no dot segment -/
 theorem C15_entry_withPath (e : Env) (u : Url) (path : Str) (kq kf : Bool) :
     u.netloc ≠ [] → NoDotSegments (withPath e u path false kq kf).path := by
   intro hn
@@ -117,9 +118,63 @@ theorem C15_entry_withPath (e : Env) (u : Url) (path : Str) (kq kf : Bool) :
     cases hnl : u.netloc with
     | nil => exact absurd hnl hn
     | cons a t => rfl
-  unfold withPath
-  simp only [fromParts, Bool.not_false, if_true, hne]
-  exact noDotSegments_ensure_slash (noDotSegments_guard _)
+  rw [withPath_eq]
+  simp only [fromParts, hne, Bool.true_and]
+  exact noDotSegments_ensure_slash (noDotSegments_guard_rooted _)
+
+/-- `ensureSlash` (the closing `if path and path[0] != "/": path = "/" + path`) on a non-empty path is `rooted` -/
+theorem ensureSlash_of_ne_nil {p : Str} (h : p ≠ []) : ensureSlash p = rooted p := by
+  cases p with
+  | nil => exact absurd rfl h
+  | cons c t =>
+    by_cases hc : c = 47
+    · subst hc; rfl
+    · rw [rooted_of_ne47 t hc]
+      unfold ensureSlash
+      split
+      next heq => cases heq
+      next r heq => exact absurd (List.cons.inj heq).1 hc
+      next => rfl
+
+/-- `with_path(path)` under an authority IS §5.2.4 (since fix 7cae68c): with `p` the quoted argument, an empty `p`
+    is stored as it is (no '.', nothing rooted; the URL then shows "/" through `raw_path`), and a non-empty `p`
+    is stored as `remove_dot_segments (rooted p)` — `rooted p` is `p` if it starts with '/', `"/" ++ p` otherwise -/
+theorem C15_entry_withPath_rfc (e : Env) (u : Url) (path : Str) (kq kf : Bool) (hn : u.netloc ≠ []) :
+    (withPath e u path false kq kf).path =
+      if q e Gen.PATH_QUOTER path = [] then [] else Rfc.removeDotSegments (rooted (q e Gen.PATH_QUOTER path)) := by
+  have hne : (!u.netloc.isEmpty) = true := by
+    cases hnl : u.netloc with
+    | nil => exact absurd hnl hn
+    | cons a t => rfl
+  rw [withPath_eq]
+  simp only [fromParts, hne, Bool.true_and]
+  generalize q e Gen.PATH_QUOTER path = p
+  by_cases hp : p = []
+  · subst hp; rfl
+  · rw [if_neg hp]
+    obtain ⟨r, hr, hpr⟩ := rooted_eq_cons p
+    cases hm : mem 46 p with
+    | true =>
+      simp only [if_true]
+      rw [hr, C15_rfc]
+      obtain ⟨t, ht⟩ := C15_rooted r
+      rw [← C15_rfc, ht]
+      rfl
+    | false =>
+      simp only [Bool.false_eq_true, if_false]
+      rw [ensureSlash_of_ne_nil hp, hr]
+      have h46 : 46 ∉ p := by
+        rw [ParseLemmas.mem_eq] at hm
+        simpa using hm
+      have h46r : 46 ∉ 47 :: r := by
+        rcases hpr with h | h
+        · rw [← h]; exact h46
+        · rw [← h]
+          intro hc
+          rcases List.mem_cons.1 hc with h' | h'
+          · cases h'
+          · exact h46 h'
+      exact (JoinLemmas.rds_no_dot r h46r).symm
 
 /-- `/`, `joinpath`: dots can only come from the new segments -/
 theorem C15_entry_makeChild (e : Env) (u : Url) (paths : List Str) (v : Url) :
